@@ -18,7 +18,7 @@ FKINDS = ['function', 'lambda', 'method', 'partial', 'instance']
 NAMED = {'function': True, 'lambda': True, 'method': True, 'partial': False, 'instance': False}
 LOGS = ['disabled', 'warn_level', 'error_level']
 SPECS = ['class', 'tuple', 'tuple_base_sub']
-SPECS_X = SPECS + ['tuple_with_typeerror']
+SPECS_X = SPECS + ['tuple_with_typeerror', 'empty_tuple', 'exception_itself']
 ABS = {'ret': 'ret', 'listed': 'listed', 'listedsub': 'listed', 'foreign': 'foreign', 'base': 'foreign',
        'retexc': 'ret', 'retforeignexc': 'ret', 'retnone': 'ret',
        # an ExceptionGroup is not an instance of the listed classes, whatever its leaves are: foreign
@@ -26,6 +26,11 @@ ABS = {'ret': 'ret', 'listed': 'listed', 'listedsub': 'listed', 'foreign': 'fore
 
 
 def abs_kind(k, spec):
+    if spec == 'empty_tuple':                   # nothing is listed: every raised object is foreign
+        return 'ret' if ABS.get(k) == 'ret' else 'foreign'
+    if spec == 'exception_itself':              # `Exception` lists every exception but not BaseException-only classes
+        if ABS.get(k) == 'ret': return 'ret'
+        return 'foreign' if k in ('base', 'basegroup') else 'listed'
     if k == 'typeerr':
         return 'listed' if spec == 'tuple_with_typeerror' else 'foreign'
     return ABS[k]
@@ -53,7 +58,7 @@ def cases(rng, tier):
             for k, seq in enumerate(itertools.product(KINDS_X, repeat=n)):
                 if any(x not in KINDS for x in seq):
                     for form in ('func', 'deco'):
-                        out.append(mk(attempts, seq, form, SPECS_X[k % 4]))
+                        out.append(mk(attempts, seq, form, SPECS_X[k % len(SPECS_X)]))
     for attempts in range(0, 5):          # every kind of callable, logger configuration and sleep time, exhaustively up to length 3
         for n in range(0, 4):
             for k, seq in enumerate(itertools.product(KINDS, repeat=n)):
@@ -85,7 +90,8 @@ def run_impl(cases):
     class Base2(Exception): pass
     class Other(Exception): pass
     class BE(BaseException): pass
-    specs = {'class': Base1, 'tuple': (Base1, Base2), 'tuple_base_sub': (Base1, Sub1), 'tuple_with_typeerror': (Base1, TypeError)}
+    specs = {'class': Base1, 'tuple': (Base1, Base2), 'tuple_base_sub': (Base1, Sub1), 'tuple_with_typeerror': (Base1, TypeError),
+             'empty_tuple': (), 'exception_itself': Exception}
     events = []
     durations = []
     orig_sleep = R.time.sleep
